@@ -34,6 +34,53 @@ def run_with_tty(exe, line, tty, env):
     return out.strip().split("\n")[-1]
 
 
+def run_with_ttys(exe, line, ttys, env):
+    """Runs the harness on one request with each of stdin / stdout / stderr attached to a pty of its own (if named in `ttys`) or to a
+    pipe.  Returns the harness's answer line."""
+    e = dict(ENV)
+    e.update(env)
+    masters, kw = {}, {}
+    for name in ("stdin", "stdout", "stderr"):
+        if name in ttys:
+            m, sl = pty.openpty()
+            masters[name] = (m, sl)
+            kw[name] = sl
+        else:
+            kw[name] = subprocess.PIPE
+    p = subprocess.Popen([exe], env=e, **kw)
+    for m, sl in masters.values():
+        os.close(sl)
+    data = (line + "\n").encode()
+    assert len(data) < 3500, "request too long for a canonical-mode terminal line"
+    if "stdin" in ttys:
+        os.write(masters["stdin"][0], data + b"\x04")     # ^D at the start of a line: end of input
+    else:
+        p.stdin.write(data)
+        p.stdin.close()
+    if "stdout" in ttys:
+        buf = b""
+        while True:
+            try:
+                chunk = os.read(masters["stdout"][0], 65536)
+            except OSError:
+                break
+            if not chunk:
+                break
+            buf += chunk
+        out = buf.decode("utf-8", "replace").replace("\r\n", "\n")
+    else:
+        out = p.stdout.read().decode("utf-8", "replace")
+    p.wait(timeout=120)
+    for m, _ in masters.values():
+        os.close(m)
+    for name in ("stdout", "stderr"):
+        f = getattr(p, name)
+        if f is not None:
+            f.close()
+    lines = [l for l in out.strip().split("\n") if l.startswith(("ok", "panic", "err", "abort")) or " out=" in l]
+    return lines[-1] if lines else out.strip().split("\n")[-1]
+
+
 def run(ck):
     ck.prove(["AsModel.Theorems.C17"])
     ck.build_harness("rt")
@@ -111,6 +158,26 @@ def run(ck):
                                   dict(tty=tty, NO_COLOR=nocolor, guard_scenario=guard, styled=styled, expected_styled=want, output=text[:300],
                                        note=None if styled else "the statement only forbids colour where it must not appear; missing colour breaks the model's 'iff' (C17_colour), not the property"),
                                   no_input=not styled)
+        # which stream is the terminal: only stderr counts (the report goes there); stdin or stdout on a terminal decide nothing
+        envp = {k: v for k, v in ENV.items() if k != "NO_COLOR"}
+        for ttys in [(), ("stdin",), ("stdout",), ("stderr",), ("stdin", "stdout"), ("stdin", "stderr"), ("stdout", "stderr"), ("stdin", "stdout", "stderr")]:
+            for guard in (0, 1):
+                r = req.replace(" 1 %s 2 " % hexs(src), " %d %s 2 " % (guard, hexs(src)), 1)
+                o = run_with_ttys(exe, r, ttys, envp)
+                f = dict(x.split("=", 1) for x in o.split(" ")[1:]) if " " in o else {}
+                text = unhexs(f.get("out", "-")) if f.get("out") else ""
+                if not text:
+                    raise RuntimeError("C17 terminal matrix: no answer from the harness with terminals on %r: %r" % (ttys, o[:200]))
+                styled = "\x1b[" in text
+                want = "stderr" in ttys and guard == 0
+                cdist["terminals=%s guard=%d styled=%d" % ("+".join(ttys) or "none", guard, styled)] = 1
+                if styled != want:
+                    ck.report("colour:terminals=%s:guard=%d" % ("+".join(ttys) or "none", guard),
+                              "colour escapes %s with terminals on {%s} (stderr %s a terminal), NO_COLOR unset, %s" % (
+                                  "appear" if styled else "are missing", ", ".join(ttys), "is" if "stderr" in ttys else "is not", "a plain-output guard alive" if guard else "no guard"),
+                              dict(terminals=list(ttys), guard_scenario=guard, styled=styled, expected_styled=want, output=text[:300],
+                                   note=None if styled else "the statement only forbids colour where it must not appear; missing colour breaks the model's 'iff' (C17_colour), not the property"),
+                              no_input=not styled)
         # colour must follow the environment at the time of each failure, whatever failed before
         envp = {k: v for k, v in ENV.items() if k != "NO_COLOR"}
         r0 = req.replace(" 1 %s 2 " % hexs(src), " 0 %s 2 " % hexs(src), 1)
@@ -132,7 +199,7 @@ def run(ck):
                     ck.report("colour:history:%s" % name, "the colour decision of a report depends on earlier reports in the process (step %d of the sequence: %s)" % (step, "styled" if styled else "plain"),
                               dict(sequence=name, step=step, styled=styled, expected_styled=want, requests=[l[:60] for l in lines]), no_input=not styled)
         ck.corr_record("T5 colour matrix (child processes with stderr on a pty / a pipe x NO_COLOR x {no guard, guard alive, outer guard alive + inner dropped, guard dropped}): styled iff terminal, NO_COLOR unset and no live guard",
-                       len(cdist), len(cdist), 0, cdist, samples=[dict(tty=True, NO_COLOR=False, guard=2)], exhaustive=True, rule="the full 2 x 2 x 4 matrix plus NO_COLOR set to the empty string and to 0; all distinct")
+                       len(cdist), len(cdist), 0, cdist, samples=[dict(tty=True, NO_COLOR=False, guard=2)], exhaustive=True, rule="the full 2 x 2 x 4 matrix plus NO_COLOR set to the empty string and to 0, plus every subset of {stdin, stdout, stderr} on a terminal x {no guard, guard alive}; all distinct")
     finally:
         shutil.rmtree(scratch, ignore_errors=True)
     schedreplay.run(ck)
